@@ -71,7 +71,9 @@ structure SafeAll (n : Nat) : Prop where
   evalExpr : ∀ σ sc e, WF σ → ScOK σ sc → Safe SValOK σ (evalExpr n σ sc e)
   evalOptIndex : ∀ σ sc e, WF σ → ScOK σ sc → Safe Triv σ (evalOptIndex n σ sc e)
   evalListItems : ∀ σ sc items acc, WF σ → ScOK σ sc → ListOK σ acc → Safe ListOK σ (evalListItems n σ sc items acc)
-  evalProps : ∀ σ sc l props acc, WF σ → ScOK σ sc → ObjOK σ acc → Safe ObjOK σ (evalProps n σ sc l props acc)
+  /-- the accumulator of an object literal stays strictly sorted by key -/
+  evalProps : ∀ σ sc l props acc, WF σ → ScOK σ sc → ObjOK σ acc → Sorted acc →
+    Safe (fun σ' m => ObjOK σ' m ∧ Sorted m) σ (evalProps n σ sc l props acc)
   evalCall : ∀ σ sc f args loc, WF σ → ScOK σ sc → Safe SValOK σ (evalCall n σ sc f args loc)
   evalToStr : ∀ σ sc d e, WF σ → ScOK σ sc → Safe Triv σ (evalToStr n σ sc d e)
   evalToBool : ∀ σ sc d e, WF σ → ScOK σ sc → Safe Triv σ (evalToBool n σ sc d e)
